@@ -16,7 +16,7 @@ def main():
         for sub in ('src', 'include', 'tests', 'Makefile'):
             s = os.path.join('/repo', sub)
             (shutil.copytree if os.path.isdir(s) else shutil.copy)(s, os.path.join(scratch, sub))
-        r = subprocess.run(['patch', '-p1', '-i', os.path.join(d, 'patch.diff')], cwd=scratch, capture_output=True, text=True)
+        r = subprocess.run(['git', 'apply', '--whitespace=nowarn', os.path.join(d, 'patch.diff')], cwd=scratch, capture_output=True, text=True)   # strict: `patch` would place a hunk elsewhere with fuzz
         if r.returncode != 0:
             print('patch does not apply:', r.stdout, r.stderr); return 2
         res = {}
